@@ -676,7 +676,119 @@ def oracle_colored(rec, tree):
     return []
 
 
-ORACLES = [("basic", oracle_basic), ("colored", oracle_colored), ("libtest", oracle_libtest), ("json", oracle_json), ("junit", oracle_junit),
+def render_terminal_width(text, width):
+    """Screen rows of a terminal `width` columns wide after `text`: deferred wrap at the last column,
+    newline = CR+LF, cursor up, erase line; colours ignored; every character one column."""
+    rows = [[]]
+    row = col = 0
+    pending = False
+    i, n = 0, len(text)
+
+    def need(r):
+        while len(rows) <= r:
+            rows.append([])
+    while i < n:
+        c = text[i]
+        i += 1
+        if c == "\n":
+            row += 1
+            col = 0
+            pending = False
+            need(row)
+        elif c == "\r":
+            col = 0
+            pending = False
+        elif c == "\x1b":
+            if i >= n or text[i] != "[":
+                raise ValueError("escape sequence other than CSI")
+            i += 1
+            params = ""
+            while i < n and (text[i].isdigit() or text[i] == ";"):
+                params += text[i]
+                i += 1
+            if i >= n:
+                raise ValueError("unterminated CSI")
+            fin = text[i]
+            i += 1
+            k = int(params) if params.isdigit() else 1
+            if fin == "A":
+                row = max(0, row - k)
+                pending = False
+            elif fin == "B":
+                row += k
+                pending = False
+                need(row)
+            elif fin == "K":
+                if params != "2":
+                    raise ValueError("erase-in-line mode " + params)
+                rows[row] = []
+            elif fin == "m":
+                pass
+            else:
+                raise ValueError("unexpected CSI final " + repr(fin))
+        else:
+            cw = _columns(c)
+            if cw == 0:
+                continue
+            if pending or (cw == 2 and col == width - 1):
+                row += 1
+                col = 0
+                pending = False
+                need(row)
+            line = rows[row]
+            while len(line) < col:
+                line.append(" ")
+            cells = [c] if cw == 1 else [c, ""]
+            for k, cell in enumerate(cells):
+                if col + k < len(line):
+                    line[col + k] = cell
+                else:
+                    line.append(cell)
+            if col + cw >= width:
+                col = width - 1
+                pending = True
+            else:
+                col += cw
+    return ["".join(l) for l in rows]
+
+
+def _columns(c):
+    """Terminal columns of one character: 0 for combining marks and format characters, 2 for East Asian
+    wide / fullwidth ones, else 1."""
+    import unicodedata
+    if unicodedata.combining(c) or unicodedata.category(c) in ("Mn", "Me", "Cf"):
+        return 0
+    return 2 if unicodedata.east_asian_width(c) in ("W", "F") else 1
+
+
+def oracle_narrow(rec, tree):
+    """The coloured reporter built on a terminal of known width: transient lines that wrap take several
+    rows and all of them are erased; the final screen is what the plain report looks like on that terminal
+    (East Asian wide characters take two columns, combining marks none)."""
+    nar = rec.get("narrow")
+    if nar is None:
+        return []
+    text = nar.get("ok")
+    if text is None:
+        return [("basic:narrow-panicked", nar.get("panic", ""))]
+    if text.startswith("\x00no terminal"):
+        return []
+    plain = rec["basic"].get("ok")
+    if plain is None:
+        return []
+    width = rec["narrow_cols"]
+    try:
+        screen = _trimmed(render_terminal_width(text, width))
+        want = _trimmed(render_terminal_width(plain, width))
+    except ValueError as e:
+        return [("basic:narrow-malformed", str(e))]
+    if screen != want:
+        k = next((i for i, (a, b) in enumerate(zip(screen, want)) if a != b), min(len(screen), len(want)))
+        return [("basic:narrow-screen-differs", f"terminal {width} columns wide, row {k + 1}: the screen shows {screen[k] if k < len(screen) else None!r}, the plain report there has {want[k] if k < len(want) else None!r} ({len(screen)} vs {len(want)} rows)")]
+    return []
+
+
+ORACLES = [("basic", oracle_basic), ("colored", oracle_colored), ("narrow", oracle_narrow), ("libtest", oracle_libtest), ("json", oracle_json), ("junit", oracle_junit),
            ("summarized", oracle_summary)]
 
 
@@ -711,6 +823,14 @@ def run(workdirs):
                     sh = shape(rec, tree, name)
                     if sh is not None:
                         distinct.add(sh)
+                    if name == "narrow":
+                        t = (rec.get("narrow", {}).get("ok") or "")
+                        if t and not t.startswith("\x00no terminal"):
+                            counters["c14.narrow_terminal_screens_rendered"] = counters.get("c14.narrow_terminal_screens_rendered", 0) + 1
+                            w = rec["narrow_cols"]
+                            counters["c14.rows_wrapped_on_those_screens"] = counters.get("c14.rows_wrapped_on_those_screens", 0) + sum(1 for l in (rec["basic"].get("ok") or "").split("\n") if len(l) > w)
+                            if not (rec["basic"].get("ok") or "").replace("\u2714", "").replace("\u2718", "").isascii():
+                                counters["c14.narrow_terminal_screens_with_non_ascii_text"] = counters.get("c14.narrow_terminal_screens_with_non_ascii_text", 0) + 1
                     if name == "colored":
                         n_erased = (rec.get("colored", {}).get("ok") or "").count("\x1b[2K")
                         counters["c14.colored_screens_rendered"] = counters.get("c14.colored_screens_rendered", 0) + 1
